@@ -1,7 +1,9 @@
 //! p2sim — deterministic simulation with fault injection for plonky2 / starky (see /verif/DESIGN.md).
 pub mod core;
 pub mod c01;
+pub mod c02;
 pub mod c03;
+pub mod sat;
 pub mod c04;
 pub mod c12;
 pub mod c16;
@@ -32,6 +34,7 @@ pub struct Property {
 pub fn registry() -> Vec<Property> {
     vec![
         Property { id: "C01", gen: c01::gen, exec: c01::exec, shrink: c01::shrink, runs: (1500, 40000) },
+        Property { id: "C02", gen: c02::gen, exec: c02::exec, shrink: c02::shrink, runs: (300, 5000) },
         Property { id: "C03", gen: c03::gen, exec: c03::exec, shrink: c03::shrink, runs: (60, 900) },
         Property { id: "C04", gen: c04::gen, exec: c04::exec, shrink: c04::shrink, runs: (160, 2500) },
         Property { id: "C12", gen: c12::gen, exec: c12::exec, shrink: c12::shrink, runs: (3000, 60000) },
